@@ -18,12 +18,13 @@ EXTRACT = ['configsvc']
 LEAN_TARGETS = ['DeepModel.Props.C12']
 AUDIT = 'DeepModel/Audit/C12.lean'
 DRIVER = 'DeepModel/Driver/C12.lean'
-BUDGET = {'quick': 600, 'thorough': 8000}
-RULE = ('histories of 1..12 ops (thorough ..30): poll answers (UPDATE with 0..3 tracepoints of which some cannot be '
+BUDGET = {'quick': 800, 'thorough': 8000}
+RULE = ('first EVERY lock-respecting interleaving of two apply tasks over their four regions (up to the lock / lock + '
+        'read / listener argument / install) with the second change (update or registration) at every point: 2 x 21 '
+        'schedules; then histories of 1..12 ops (thorough ..30): poll answers (UPDATE with 0..3 tracepoints of which some cannot be '
         'interpreted; NO_CHANGE carrying stray data; answer of a type outside the enum; response whose conversion '
         'raises; stub raising; garbage instead of a response), register / unregister, and the apply tasks scheduled explicitly: whole tasks in any order, or '
-        'split into their three regions (read under the lock / evaluate the listener argument / install) with other ops '
-        'in between, ~12% of cases with a second task started '
+        'split into their four regions with other ops in between (any number of tasks parked in front of the lock), ~12% of cases with a second task started '
         'while the lock is held (must block); usually drained at the end in a random order. Timer cases (1 in 16): '
         'LongPoll.start() with POLL_TIMER 0.01 as float or as text, script of 2..6 polls with failures first. '
         'Non-trivial = two or more updates/registrations were in flight together and ran in an order other than '
@@ -62,6 +63,8 @@ def gen_seq(rng, tier):
             s.register()
         elif r < 0.54:
             s.unregister()
+        elif r < 0.62:
+            s.start() or s.read() or s.advance() or s.update()
         elif r < 0.72:
             s.read() or s.advance() or s.update()
         elif r < 0.86:
@@ -84,27 +87,82 @@ def gen_timer(rng):
 
 
 def race_case(rng):
-    """two tasks inside update_listeners at once, if the implementation lets them: the first reads, something changes
-    (update / register / unregister), the second is started and — were it not blocked — runs to completion before the
-    first goes on.  With the lock the second start blocks and the tail of the schedule lets it run afterwards."""
+    """two tasks inside update_listeners at once, if the implementation lets them: the first takes the lock, something
+    changes (update / register / unregister), the second is started and — were it not blocked — runs to completion
+    before the first goes on.  With the lock the second blocks and the tail of the schedule lets it run afterwards."""
     s = svcref.Sched(rng)
     for _ in range(rng.randint(0, 2)):
         rng.choice([s.update, s.register])()
         s.drain(atomic_only=True)
     s.update(n=rng.randint(1, 2))
-    s.emit({'op': 'taskRead', 'i': 0})
+    s.emit({'op': 'taskStart', 'i': 0})
+    s.emit({'op': 'taskRead', 'k': 0})
     if rng.random() < 0.3:
         s.emit({'op': 'taskCall', 'k': 0})
     rng.choice([lambda: s.update(n=rng.randint(0, 2)), s.register, s.update])()
-    tail = [{'op': 'taskRead', 'i': 0}, {'op': 'taskCall', 'k': 1}, {'op': 'taskInstall', 'k': 1},
-            {'op': 'taskCall', 'k': 0}, {'op': 'taskInstall', 'k': 0},
-            {'op': 'taskRead', 'i': 0}, {'op': 'taskCall', 'k': 0}, {'op': 'taskInstall', 'k': 0}]
+    tail = [{'op': 'taskStart', 'i': 0}, {'op': 'taskRead', 'k': 0}, {'op': 'taskCall', 'k': 1},
+            {'op': 'taskInstall', 'k': 1}, {'op': 'taskCall', 'k': 0}, {'op': 'taskInstall', 'k': 0},
+            {'op': 'taskRead', 'k': 0}, {'op': 'taskCall', 'k': 0}, {'op': 'taskInstall', 'k': 0}]
     for op in tail:
         s.emit(op)
     return {'kind': 'seq', 'ops': s.ops}
 
 
+def two_task_schedules():
+    """EVERY interleaving of two apply tasks over their four regions (start = up to the lock, read = lock + read,
+    call, install) that respects the lock, with the second change (an update or a registration) arriving at every
+    possible point after the first task was submitted.  Task A belongs to the first update, task B to the change."""
+    A = ['A0', 'A1', 'A2', 'A3']
+    B = ['C', 'B0', 'B1', 'B2', 'B3']
+    out = []
+
+    def merge(a, b, acc):
+        if not a and not b:
+            out.append(list(acc))
+            return
+        if a:
+            merge(a[1:], b, acc + [a[0]])
+        if b:
+            merge(a, b[1:], acc + [b[0]])
+    merge(A, B, [])
+    cases = []
+    for seq in out:
+        # lock exclusion: X1..X3 of one task may not contain the other's X1
+        pos = {x: i for i, x in enumerate(seq)}
+        if pos['A1'] < pos['B1'] < pos['A3'] or pos['B1'] < pos['A1'] < pos['B3']:
+            continue
+        for change in ('update', 'register'):
+            ops = [_upd('h1', 1, ('a.py', 1, 'old'))]
+            queued, pre, hold = ['A'], [], []
+            for x in seq:
+                if x == 'C':
+                    if change == 'update':
+                        ops.append(_upd('h2', 2, ('a.py', 2, 'new')))
+                    else:
+                        ops.append({'op': 'register', 'path': 'a.py', 'line': 1, 'tag': 'w1', 'args': {}})
+                    queued.append('B')
+                    continue
+                t, r = x[0], x[1]
+                if r == '0':
+                    ops.append({'op': 'taskStart', 'i': queued.index(t)})
+                    queued.remove(t)
+                    pre.append(t)
+                elif r == '1':
+                    ops.append({'op': 'taskRead', 'k': pre.index(t)})
+                    pre.remove(t)
+                    hold.append(t)
+                elif r == '2':
+                    ops.append({'op': 'taskCall', 'k': hold.index(t)})
+                else:
+                    ops.append({'op': 'taskInstall', 'k': hold.index(t)})
+                    hold.remove(t)
+            cases.append({'kind': 'seq', 'ops': ops})
+    return cases
+
+
 def gen(rng, tier):
+    for c in two_task_schedules():
+        yield c
     k = 0
     while True:
         k += 1
@@ -131,7 +189,9 @@ def search(rng, tier):
         s.contention = k % 3 == 0
         for _ in range(rng.randint(2, 4)):
             rng.choice([s.update, s.update, s.register, s.unregister, s.nochange, s.fail, s.unknown])()
-            if rng.random() < 0.4:
+            if rng.random() < 0.5:
+                s.start()
+            if rng.random() < 0.3:
                 s.read()
         if s.queued >= 2 and not s.holding and rng.random() < 0.5:
             s.apply(s.queued - 1)
@@ -150,12 +210,16 @@ def corpus():
         # D15: two updates in flight, applied newest first
         {'kind': 'seq', 'ops': [_upd('h1', 1, ('a.py', 1, 'old')), _upd('h2', 2, ('a.py', 2, 'new')), ap(1), ap(0)]},
         # read / update / read blocked / install / read / install
-        {'kind': 'seq', 'ops': [_upd('h1', 1, ('a.py', 1, 'old')), {'op': 'taskRead', 'i': 0},
-                                _upd('h2', 2, ('a.py', 2, 'new')), {'op': 'taskRead', 'i': 0},
-                                {'op': 'taskCall', 'k': 0}, {'op': 'taskInstall', 'k': 0}, {'op': 'taskRead', 'i': 0},
+        {'kind': 'seq', 'ops': [_upd('h1', 1, ('a.py', 1, 'old')), {'op': 'taskStart', 'i': 0}, {'op': 'taskRead', 'k': 0},
+                                _upd('h2', 2, ('a.py', 2, 'new')), {'op': 'taskStart', 'i': 0}, {'op': 'taskRead', 'k': 0},
+                                {'op': 'taskCall', 'k': 0}, {'op': 'taskInstall', 'k': 0}, {'op': 'taskRead', 'k': 0},
+                                {'op': 'taskCall', 'k': 0}, {'op': 'taskInstall', 'k': 0}]},
+        # a task parked in front of the lock while a newer update is applied completely (seeded C12-A)
+        {'kind': 'seq', 'ops': [_upd('h1', 1, ('a.py', 1, 'old')), {'op': 'taskStart', 'i': 0},
+                                _upd('h2', 2, ('a.py', 2, 'new')), ap(0), {'op': 'taskRead', 'k': 0},
                                 {'op': 'taskCall', 'k': 0}, {'op': 'taskInstall', 'k': 0}]},
         # a registration arrives between the read of the polled configuration and the listener call
-        {'kind': 'seq', 'ops': [_upd('h1', 1, ('a.py', 1, 's1')), {'op': 'taskRead', 'i': 0},
+        {'kind': 'seq', 'ops': [_upd('h1', 1, ('a.py', 1, 's1')), {'op': 'taskStart', 'i': 0}, {'op': 'taskRead', 'k': 0},
                                 {'op': 'register', 'path': 'a.py', 'line': 1, 'tag': 'w1', 'args': {}},
                                 {'op': 'taskCall', 'k': 0},
                                 {'op': 'register', 'path': 'a.py', 'line': 1, 'tag': 'w2', 'args': {}},
@@ -239,13 +303,13 @@ def run_impl(case):
 
 
 # --------------------------------------------------------------------------------------- judging
-STATE_KEYS = ('hash', 'polled', 'installed', 'custom', 'queued', 'holding')
+STATE_KEYS = ('hash', 'polled', 'installed', 'custom', 'queued', 'pre', 'holding')
 
 
 def oracle_seq(case, obs):
     v = []
     ref = svcref.Reference()
-    prev = {'hash': None, 'polled': [], 'installed': [], 'custom': [], 'queued': 0, 'holding': 0}
+    prev = {'hash': None, 'polled': [], 'installed': [], 'custom': [], 'queued': 0, 'pre': 0, 'holding': 0}
     for n, (op, t) in enumerate(zip(case['ops'], obs['trace'])):
         k = op['op']
         what = f'op {n} ({k})'
@@ -277,8 +341,8 @@ def oracle_seq(case, obs):
         if svcref.norm_hash(t['hash']) != svcref.norm_hash(ref.latest_hash):
             v.append(f'after {what}: current hash {t["hash"]!r}, the last configuration received has '
                      f'{ref.latest_hash!r}')
-        if t['queued'] == 0 and t['holding'] == 0 and sorted(t['installed']) != ref.expected():
-            v.append(f'after {what}, nothing in flight: installed {sorted(t["installed"])}; latest configuration + '
+        if t['queued'] == 0 and t['pre'] == 0 and t['holding'] == 0 and sorted(t['installed']) != ref.expected():
+            v.append(f'after {what}, nothing in flight: stale configuration installed after quiescence: installed {sorted(t["installed"])}; latest configuration + '
                      f'live registrations = {ref.expected()}')
         prev = t
         if len(v) >= 4:
@@ -353,10 +417,10 @@ def _reordered(case):
     """apply tasks ran in an order other than submission order, or a read and its install were separated"""
     ops = case['ops']
     for i, o in enumerate(ops):
-        if o['op'] in ('applyTask', 'taskRead') and o['i'] > 0:
+        if o['op'] in ('applyTask', 'taskStart') and o['i'] > 0:
             return True
-        if o['op'] in ('taskRead', 'taskCall') and i + 1 < len(ops) and \
-                ops[i + 1]['op'] not in ('taskCall', 'taskInstall'):
+        if o['op'] in ('taskStart', 'taskRead', 'taskCall') and i + 1 < len(ops) and \
+                ops[i + 1]['op'] not in ('taskRead', 'taskCall', 'taskInstall'):
             return True
     return False
 
@@ -382,7 +446,7 @@ def label(case, obs):
         parts.append('lock-contended')
     if _fail_after_good(case):
         parts.append('inert-poll-after-config')
-    parts.append('settled' if t and t[-1]['queued'] == 0 and t[-1]['holding'] == 0 else 'in-flight')
+    parts.append('settled' if t and t[-1]['queued'] == 0 and t[-1]['pre'] == 0 and t[-1]['holding'] == 0 else 'in-flight')
     if 'register' in ks or 'unregister' in ks:
         parts.append('custom')
     return '/'.join(parts)
